@@ -208,7 +208,8 @@ func (H) Generate(rng *simrt.Rand, prop, tier string) (any, simrt.Config) {
 		sb := genSub(rng, u, prop)
 		if prop == "C12" && rng.Chance(0.6) {
 			sb.Hostile = []string{"poll-first", "nil-prefix", "empty-target", "unknown-mode", "no-subscriptions", "nil-path", "origin-conflict",
-				"prefix-elems-with-path-origin", "huge-keys", "empty-names", "meta-path", "empty-request", "deprecated-element-path", "glob-target-with-origin"}[rng.Intn(14)]
+				"prefix-elems-with-path-origin", "huge-keys", "empty-names", "meta-path", "empty-request", "deprecated-element-path", "glob-target-with-origin",
+				"no-request-half-close", "no-request-cancel"}[rng.Intn(16)]
 		}
 		sc.Subs = append(sc.Subs, sb)
 	}
@@ -832,10 +833,17 @@ func (w *world) reader(x *common.Exec, ctx context.Context, sr *subRec) {
 	cs := st.ClientSide()
 	sr.inv = simrt.Stamp()
 	sr.started = true
-	if err := cs.SendMsg(reqOf(sr.sub)); err != nil && err != io.EOF {
-		sr.recvErr = err
-		return
-	} // io.EOF: the RPC has already ended; RecvMsg reports its status
+	switch sr.sub.Hostile {
+	case "no-request-half-close":
+		cs.CloseSend() // a client that opens the RPC and ends its side without ever sending a request
+	case "no-request-cancel":
+		cancel() // a client that opens the RPC and goes away
+	default:
+		if err := cs.SendMsg(reqOf(sr.sub)); err != nil && err != io.EOF {
+			sr.recvErr = err
+			return
+		} // io.EOF: the RPC has already ended; RecvMsg reports its status
+	}
 	n := 0
 	polls := 0
 	for {
